@@ -149,6 +149,16 @@ fn discard_case(ctx: &WorkerCtx, rep: &mut WorkerReport, case_seed: u64) {
     grow(&mut w, &mut a, pre, CommitPolicy::Random(35), &mut rng);
     if rng.chance(2, 3) {
         a.exec(Op::Commit);
+        // a commit with no block finalised since the previous one still has something to write:
+        // signed transactions parked meanwhile (they need no finalise and do not block a commit)
+        if a.height >= 0 && rng.chance(1, 2) {
+            let parked = w.park_only(&mut a);
+            let r = a.exec(Op::Commit);
+            if parked > 0 && r.is_ok() {
+                rep.set_add("coverage", "commit-with-only-parked-transactions-since-the-last-one".to_string());
+                rep.nontrivial(format!("parked-then-committed:{}", parked.min(2)));
+            }
+        }
     }
     let post = rng.range(0, 4);
     grow(&mut w, &mut a, post, CommitPolicy::Never, &mut rng);
@@ -164,7 +174,7 @@ fn discard_case(ctx: &WorkerCtx, rep: &mut WorkerReport, case_seed: u64) {
     }
     let lost_blocks = a.height - a.committed;
     let kind = if rng.chance(1, 2) { "clear" } else { "reopen" };
-    let committed_prefix: Vec<Op> = if a.committed >= 0 { a.prefix_ops(a.committed as u64) } else { vec![] };
+    let committed_prefix: Vec<Op> = a.committed_ops();
     let before_log_len = a.log.len();
     let r = if kind == "clear" { a.exec(Op::Clear) } else { a.exec(Op::Reopen) };
     if !r.is_ok() {
